@@ -94,6 +94,7 @@ structure Stored where
   npix : Nat             -- Rows * Columns
   frames : List SFrame
   refs : List Nat := []  -- the source instances the object references (its `InstanceUIDs` table), as opaque numbers
+  frameSrcs : List Nat := []  -- the instances frames derive from (`ReferencedSOPInstanceUID` column of the frame table)
   deriving Repr, Inhabited
 
 structure Req where
@@ -303,14 +304,15 @@ def entryRefuses (st : Stored) (mode : Mode) (assertMissing : Bool) (keys : List
   match mode with
   | .bySource => !assertMissing && keys.any fun k => !st.refs.contains k
   | .div => !assertMissing && keys.any fun k => !(st.frames.map (·.key)).contains k
-  | .frame uid => (!assertMissing && !st.refs.contains uid) || !framesAdmitted st assertMissing keys
+  | .frame uid => (!assertMissing && !st.frameSrcs.contains uid) || !framesAdmitted st assertMissing keys
   | .all => false
 
 /-- the frames the query runs over: by source frame with an instance the object does not reference (possible only
-under the assertion) no frame is used (`indices = iter(())`) -/
+under the assertion) no frame is used (`indices = iter(())`); "references" here means: some frame derives from it — being
+listed in ReferencedSeriesSequence is not enough -/
 def effective (st : Stored) (mode : Mode) : Stored :=
   match mode with
-  | .frame uid => if st.refs.contains uid then st else { st with frames := [] }
+  | .frame uid => if st.frameSrcs.contains uid then st else { st with frames := [] }
   | _ => st
 
 def read (st : Stored) (mode : Mode) (assertMissing : Bool) (rq : Req) : Except ErrKind Out := do
@@ -347,13 +349,14 @@ def zeroFrameRequested (mode : Mode) (keys : List Nat) : Bool :=
   | _ => false
 
 /-- a requested stack value is **unknown to the object's reference tables**: a source instance it does not reference;
-by source frame an unreferenced instance or a frame number above the highest referenced one; dimension index values no
+by source frame an instance no frame derives from (even if it is listed among the referenced instances) or a frame
+number above the highest referenced one; dimension index values no
 frame has.  (A referenced source without any frame is *known*: it reads as empty without any assertion.) -/
 def missingRefused (st : Stored) (mode : Mode) (keys : List Nat) : Bool :=
   match mode with
   | .bySource => keys.any fun k => !st.refs.contains k
   | .div => keys.any fun k => !(st.frames.map (·.key)).contains k
-  | .frame uid => !st.refs.contains uid || keys.any fun k => decide (k > listMax (st.frames.map (·.key)))
+  | .frame uid => !st.frameSrcs.contains uid || keys.any fun k => decide (k > listMax (st.frames.map (·.key)))
   | .all => false
 
 /-- every stored frame stems from a referenced source (by source instance) -/
